@@ -65,3 +65,64 @@ package tun
 //@   opt frame=off
 //@   requires kv != nil
 //@   at call Delete#1: assert deletes-the-hostnames-binding-key: str(callarg1) == CustomHostnameKey(hostname)
+
+// ---- C40: bidirectional piping. Fork/join decomposition (trusted: sync.WaitGroup, channel and goroutine
+// semantics; io.CopyBuffer copies src to dst in order until EOF or error):
+//   each direction (pipe) copies with a buffer of its own taken from the pool inside the call, then closes BOTH
+//   streams whatever the copy returned, sends at most one error (only a non-nil one) and calls Done exactly once,
+//   deferred before anything else so that it also runs when a stream panics;
+//   Pipe makes an error channel with room for both directions (so neither send can block and Done is always
+//   reached), adds 2 to the wait group and forks the two directions over the same pair of streams with source and
+//   destination swapped, and a waiter (Pipe$1) that closes the channel only after Wait returned.
+//@ func pipe(wg *sync.WaitGroup, errChan chan<- error, dst io.ReadWriteCloser, src io.ReadWriteCloser)
+//@   safety off
+//@   opt frame=off
+//@   ghost dones int = 0
+//@   ghost copies int = 0
+//@   ghost cerr error = nil
+//@   ghost closedSrc int = 0
+//@   ghost closedDst int = 0
+//@   ghost sends int = 0
+//@   ghost sent error = nil
+//@   at defer Done#1: assert done-is-deferred-first-on-the-shared-wait-group: callarg0 == wg && copies == 0 && dones == 0
+//@   at defer Done#1: ghost dones := dones + 1
+//@   at call CopyBuffer#1: assert copies-from-its-source-to-its-destination-with-a-private-buffer: any(callarg0) == any(src) && any(callarg1) == any(dst) && fresh(callarg2) && len(callarg2) > 0 && copies == 0
+//@   at after call CopyBuffer#1: ghost copies := copies + 1
+//@   at after call CopyBuffer#1: ghost cerr := callresult1
+//@   at call Close#*: assert streams-are-closed-only-after-the-copy-ended: copies == 1
+//@   at call Close#*: ghost closedSrc := closedSrc + (any(callrecv) == any(src) ? 1 : 0)
+//@   at call Close#*: ghost closedDst := closedDst + (any(callrecv) == any(dst) ? 1 : 0)
+//@   at send#*: assert only-the-copy-error-is-reported-on-the-shared-channel: callarg0 == errChan && callarg1 == cerr && cerr != nil && copies == 1
+//@   at send#*: ghost sends := sends + 1
+//@   ensures local-one-copy-one-done: copies == 1 && dones == 1
+//@   ensures local-both-ends-are-closed-whatever-the-copy-returned: closedSrc >= 1 && closedDst >= 1
+//@   ensures local-at-most-one-error-and-exactly-the-failures-are-reported: sends <= 1 && ((cerr != nil) == (sends == 1))
+
+//@ func Pipe$1()
+//@   safety off
+//@   opt frame=off
+//@   ghost waited bool = false
+//@   at after call Wait#1: ghost waited := true
+//@   at call Wait#1: assert waits-on-the-shared-wait-group: callarg0 == wg
+//@   at call close#1: assert completion-is-signalled-only-after-both-directions-finished: waited && callarg0 == err
+
+//@ func Pipe(src io.ReadWriteCloser, dst io.ReadWriteCloser) (r <-chan error)
+//@   safety off
+//@   opt frame=off
+//@   ghost forks int = 0
+//@   ghost fwd bool = false
+//@   ghost bwd bool = false
+//@   ghost waiter int = 0
+//@   ghost added int = 0
+//@   ghost wg0 *sync.WaitGroup = nil
+//@   ghost ch0 chan error = nil
+//@   at call Add#*: ghost added := added + callarg1
+//@   at call Add#*: ghost wg0 := callarg0
+//@   at go pipe#*: assert each-direction-shares-the-wait-group-and-error-channel: callarg0 == wg0 && added == 2 && waiter == 0
+//@   at go pipe#*: ghost ch0 := (forks == 0 ? callarg1 : ch0)
+//@   at go pipe#*: ghost fwd := fwd || (callarg1 == ch0 && any(callarg2) == any(src) && any(callarg3) == any(dst))
+//@   at go pipe#*: ghost bwd := bwd || (callarg1 == ch0 && any(callarg2) == any(dst) && any(callarg3) == any(src))
+//@   at go pipe#*: ghost forks := forks + 1
+//@   at go Pipe$1#*: ghost waiter := waiter + 1
+//@   ensures local-two-directions-one-waiter: forks == 2 && fwd && bwd && waiter == 1 && added == 2
+//@   ensures local-the-returned-channel-is-the-shared-one-with-room-for-both-errors: r == ch0 && cap(ch0) == 2
